@@ -1,8 +1,13 @@
 (* Run/C36.v — case decoder / observable encoder for the C36 correspondence.
-   case    (scenario record)     the scenario is for the Go side only
+   case    (scenario (record ...))   the scenario is for the Go side only; one record per round
    record  (0)                                    the real builder returned an error
-           (1 cfg prio pend_plain pend_blob meta table)
-     cfg    (cancun amsterdam eip155 max_blobs gas_limit base_fee size0)
+           (2)                                    parent block built by Miner.BuildTestingPayload
+                                                  from a given list (no pools): not modelled
+           (1 cfg prio pend_plain pend_blob meta table blobhdr)
+     cfg    (cancun amsterdam eip155 max_blobs gas_limit base_fee size0 protocol_max_blobs)
+     blobhdr ((cancun_t prague_t osaka_t bpo1_t bpo2_t) (cancun prague bpo1 bpo2 blob configs)
+             (parent_excess parent_blob_gas_used parent_base_fee) head_time)  optionals as () / (v),
+             a blob config as (target max update_fraction)
      prio   (acct ...)
      pend   ((acct ((id nonce feecap tipcap time gas blobgas) ...)) ...)
      meta   ((id gas blobgas sidecar_blobs size size_noblob resolves protected isblob) ...)
@@ -11,12 +16,14 @@
             b = gas handed back to the pool; Amsterdam: a = execution gas, b = state gas,
             c = receipt gas), 1 nonce too low, 2 nonce too high, 3 gas limit reached,
             4 tx type not supported, 5 other (before the pool is consulted), 6 other (after)
-   result  (0) | (1 1 wf (included ids) gas_used blob_gas_used ((reverted id pos) ...))
+   result  (1 (round ...)),  round = (0) | (1 wf (included ids) gas_used blob_gas_used (excess_blob_gas)
+                                            ((reverted id pos) ...))
            wf = every recorded charge satisfies the well-formedness hypotheses of the
            theorems.  (-1 code) when the record does not decode, the table has no row
            for an attempt the model makes (7), or the model importer [validate] rejects
            the block the model builder assembled (11). *)
 From GV Require Import Lib.Sx Gas.GoArith Gas.Pool_gen Pool.Ordering EVM.Build.
+From GV Require Gas.FeesImpl.
 Local Open Scope N_scope.
 
 Definition dec_tx (s : sx) : option tx :=
@@ -123,39 +130,74 @@ Definition list_eqb (a b : list N) : bool :=
 
 Definition enc_rev (p : tx * N) : sx := SL [sn (tx_id (fst p)); sn (snd p)].
 
-Definition C36_run (c : sx) : sx :=
-  match c with
-  | SL [_; SL [SI 0%Z]] => SL [SI 0%Z]
-  | SL [_; SL [SI 1%Z; SL [cc; ca; ce; SI mb; SI gl; bf; sz]; prio; pp; pb; ms; tb]] =>
+Definition dec_optZ (s : sx) : option (option Z) :=
+  match s with SL [] => Some None | SL [SI z] => Some (Some z) | _ => None end.
+
+Definition dec_bc (s : sx) : option (option FeesImpl.blob_config) :=
+  match s with
+  | SL [] => Some None
+  | SL [SL [SI t; SI m; SI f]] => Some (Some (FeesImpl.Build_blob_config t m f))
+  | _ => None
+  end.
+
+(* the fork / blob schedule, the parent's blob fields and the new block's time *)
+Definition dec_blobhdr (s : sx) : option (FeesImpl.chain_config * FeesImpl.header * Z) :=
+  match s with
+  | SL [SL [tc; tp; to; t1; t2]; SL [bc; bp; b1; b2]; SL [pe; pu; pb]; SI ht] =>
+      match dec_optZ tc, dec_optZ tp, dec_optZ to, dec_optZ t1, dec_optZ t2,
+            dec_bc bc, dec_bc bp, dec_bc b1, dec_bc b2, dec_optZ pe, dec_optZ pu, dec_optZ pb with
+      | Some tc', Some tp', Some to', Some t1', Some t2',
+        Some bc', Some bp', Some b1', Some b2', Some pe', Some pu', Some pb' =>
+          Some (FeesImpl.Build_chain_config (Some 0%Z) tc' tp' to' t1' t2' None None None
+                  (Some (FeesImpl.Build_blob_schedule bc' bp' b1' b2' None None None)),
+                FeesImpl.Build_header 0 0 0 0 pb' pe' pu', ht)
+      | _, _, _, _, _, _, _, _, _, _, _, _ => None
+      end
+  | _ => None
+  end.
+
+Definition run_round (rec : sx) : sx :=
+  match rec with
+  | SL [SI 0%Z] => SL [SI 0%Z]
+  | SL [SI 2%Z] => SL [SI 2%Z]     (* a block built by BuildTestingPayload: not modelled *)
+  | SL [SI 1%Z; SL [cc; ca; ce; SI mb; SI gl; bf; sz; SI pm]; prio; pp; pb; ms; tb; bh] =>
       match sx_bool cc, sx_bool ca, sx_bool ce, sx_N bf, sx_N sz,
             sx_list_of sx_N prio, sx_list_of dec_acc pp, sx_list_of dec_acc pb,
-            sx_list_of dec_meta ms, sx_list_of dec_row tb with
+            sx_list_of dec_meta ms, sx_list_of dec_row tb, dec_blobhdr bh with
       | Some cc', Some ca', Some ce', Some bf', Some sz',
-        Some prio', Some pp', Some pb', Some ms', Some tb' =>
+        Some prio', Some pp', Some pb', Some ms', Some tb', Some (ccfg, phdr, ht) =>
           let cfg := mkCfg cc' ca' ce' mb gl (Some bf') in
           let meta := fun t => find_meta ms' (tx_id t) in
           let lhash : W -> list N := fun w => fst w in
           match generate_work W N (list N) N meta (t_pre tb') (t_exec ca' tb') cfg
                   (fun w => w) (fun w rs => Some (w, 0)) (fun w => w)
                   lhash lhash (fun rs => rs) (fun rs => rs) (fun q => [q])
+                  ccfg phdr true ht
                   [] [] prio' ([], false) sz' pp' pb' with
           | GwBlock _ _ _ b env _ _ =>
               if snd (e_state _ _ env) then SErr 7
               else if negb (validate W N (list N) N meta (t_pre tb') (t_exec ca' tb') cfg
                              (fun w => w) (fun w rs => Some (w, 0)) (fun w => w)
                              lhash lhash (fun rs => rs) (fun rs => rs) (fun q => [q])
-                             list_eqb (Z.to_N mb) ([], false) b)
+                             list_eqb ccfg phdr (Z.to_N pm) ([], false) b)
               then SErr 11      (* the model importer rejects the model builder's block *)
               else
-                SL [SI 1; SI 1; sbool (forallb (row_wf ca' ms') tb');
+                SL [SI 1; sbool (forallb (row_wf ca' ms') tb');
                     SL (map (fun t => sn (tx_id t)) (e_txs _ _ env));
                     SI (e_gasused _ _ env); sn (e_blobgasused _ _ env);
+                    match h_excessblobgas _ (b_header _ b) with Some e => SL [SI e] | None => SL [] end;
                     SL (map enc_rev (e_reverted _ _ env))]
           | GwPostExecError _ _ _ => SErr 8
           | GwPanic _ _ _ => SErr 9
           | GwOutOfFuel _ _ _ => SErr 10
           end
-      | _, _, _, _, _, _, _, _, _, _ => SErr 2
+      | _, _, _, _, _, _, _, _, _, _, _ => SErr 2
       end
+  | _ => SErr 1
+  end.
+
+Definition C36_run (c : sx) : sx :=
+  match c with
+  | SL [_; SL recs] => SL [SI 1; SL (map run_round recs)]
   | _ => SErr 1
   end.
